@@ -188,6 +188,9 @@ func runC01(t *T) {
 	kind := c.Draw(3)
 	defer beginTrial(t, true)()
 	alpha := []string{"a", "b", "c"}
+	if c.Chance(1, 3) {
+		alpha = []string{"a", "ab", "b"} // names that are string prefixes of each other
+	}
 	d, cleanup := newDiffRun(t, kind, alpha)
 	defer cleanup()
 	d.g = newFsGen(t, alpha, 3)
